@@ -94,7 +94,8 @@ async def _check(case, ctx: Ctx) -> CaseResult:
     spec, outcomes = case['spec'], case['outcomes']
     async with SCase(case, ctx) as sc:
         if sc.rejected:
-            return CaseResult([], False, ['rejected:' + sc.rejected])
+            return CaseResult(sc.crash_violations('C02'), False,
+                              ['rejected:' + sc.rejected])
         await sc.run_schedule()
         await sc.drain()
         viol = sc.crash_violations('C02')
